@@ -942,16 +942,21 @@ def main():
     if B.replay_file:
         return replay(B)
     TT = tables(B)
-    B.bound = (f"{len(TT)} bin tables (fixed with short last bin, exact multiple, variable, one-bin chroms, 3 chroms, long last bin, long one-bin "
-               f"chrom{', width-1 bins, 4 chroms mixed, 6 seeded random tables' if B.thorough else ''}). ENUMERATED: sanitize_records on every ordered pair "
-               "of ALL positions 0..clen-1 of all chroms (+6 unknown-chromosome records) x {zero,one}-based x {reflect,drop,None} x {pairs,bg2} "
-               "x {names, enumerated ids, with/without dropped records}, sided passenger fields; out-of-bounds q in {-1,clen,clen+1} x chrom x side "
-               "x partner x context x tril incl. raise; raise-mode singletons; sanitize_pixels on all (b1,b2) in [0,n)^2 x base x tril; "
-               "chunk sizes 1..len+1 on a 10-record multiset; CLI (in-process): load bg2/coo x {unique,duplex,square} x base x chunk sizes, "
-               "out-of-bounds starts/ids, --field placements; cload pairs x modes x base x chunk sizes, out-of-bounds, "
-               f"{'all 720' if B.thorough else 'the 24 positional + 6 ascending + 6 seeded'} column permutations of a 6-column file; cload tabix "
-               "x base x max-split x 2 layouts, out-of-bounds pos1/pos2. SEEDED (representatives inside the scope): shuffles, duplicate picks, "
-               "orientation/holes of pre-binned inputs" + ("; random tables" if B.thorough else ""))
+    q = not B.thorough
+    B.bound = (f"{len(TT)} bin tables (fixed with short last bin, exact multiple, variable, one-bin chroms, single chrom, 3 chroms, long last bin, "
+               f"long one-bin chrom{', width-1 bins, 4 chroms mixed, 6 seeded random tables' if B.thorough else ''}). ENUMERATED per table: "
+               "sanitize_records on every ordered pair of ALL positions 0..clen-1 of all chroms (+6 unknown-chromosome records) "
+               + ("zero-based, and of all bin-edge positions one-based, " if q else "x {zero,one}-based ")
+               + "x {reflect,drop,None} x {pairs schema; bg2 schema, enumerated chrom ids, chunk without dropped records"
+               + (": 2 (base,tril) combinations each" if q else "") + "}, sided passenger fields; out-of-bounds q in {-1,clen,clen+1} x chrom x side x "
+               "tril incl. raise x {pairs,bg2,enumerated ids}" + (" (x 3 partners x 2 contexts on the first table)" if q else " x 3 partners x 2 contexts")
+               + "; raise-mode one-record calls; sanitize_pixels on all (b1,b2) in [0,n)^2 x base x tril x sort; aggregate with NaN passenger; "
+               "order x chunking on all bin-edge position pairs, ALL chunk sizes 1..len+1 on a 10-record multiset; create_cooler(unordered) end to end. "
+               f"CLI in-process on {'4 tables (+1 for out-of-bounds inputs)' if q else 'all named + 3 random tables'}: load bg2/coo x "
+               "{unique,duplex,square} x base x chunk sizes, same pixel across chunks, out-of-bounds starts/ids, --field placements (6 x 2); cload pairs x "
+               f"modes x base x chunk sizes (+ default mergebuf), out-of-bounds, {'all 720' if B.thorough else 'the 24 positional + 6 ascending + 6 seeded'} "
+               "column permutations of a 6-column file; cload tabix x base x max-split x 2 layouts, out-of-bounds pos1/pos2. SEEDED (representatives "
+               "inside the scope): shuffles, duplicate picks, orientation/holes of pre-binned inputs" + ("; random tables" if B.thorough else ""))
     B.rule = ("case = (table, schema/loader, base, tril mode, record or record multiset, order, chunking, argv); "
               "non-trivial when at least one record is retained (per-record cases: the record lies on known chromosomes); distinct by case")
     B.exhaustive = not B.thorough   # thorough adds seeded random tables / multisets beyond the enumerated scope
